@@ -49,6 +49,8 @@ Inductive call :=
 | KRing (m1 m2 : Z) (same isdiv : bool) (b : Z)   (* operation between residues of the rings m1, m2 (same: one ring object); division by residue b of m2 *)
 | KToPrim (B : Z) (x : fval)          (* FBig::to_f32 / to_f64 *)
 | KFloat (B : Z) (o : fop) (prec : Z) (x y : fval) (n : Z)
+| KFloatOpDiv (B prec : Z) (x y : fval)  (* the operator forms x / y (FBig / FBig, FBig / integer, integer / FBig): repr_div at the precision
+                                            prec = Context::max of the two operand contexts, operands not shrunk first *)
 | KWithBase (B NB tprec : Z) (x : fval)      (* with_base_and_precision::<NB>(tprec) of a base-B float *)
 | KToFloat (prec : Z)                 (* RBig::to_float(prec) *)
 | KFarey (kind xn xd limit : Z).      (* next_up (0) / next_down (1) / nearest (2) of xn/xd with denominator limit *)
@@ -112,6 +114,7 @@ Definition documented (c : call) : list preason :=
       ++ when (isdiv && negb (m2 =? 0) && negb (Z.gcd (b mod m2) m2 =? 1)) NonInvertible
   | KToPrim B x => []
   | KFloat B o prec x y n => float_documented B o prec x y n
+  | KFloatOpDiv B prec x y => float_documented B FoDiv prec x y 0
   | KWithBase B NB tprec x => when ((tprec =? 0) && negb (finf x) && negb (pow_related B NB)) UnlimitedPrecision
   | KToFloat prec => when (prec =? 0) UnlimitedPrecision
   | KFarey kind xn xd limit => when (limit =? 0) DivideBy0
@@ -138,6 +141,7 @@ Definition exp_band (c : call) : bool :=
       | _ => false
       end
   | KWithBase B NB tprec x => big (fexp x)
+  | KFloatOpDiv B prec x y => big (fexp x) || big (fexp y)
   | _ => false
   end.
 
